@@ -33,6 +33,8 @@ struct Case {
 	hash: bool,
 	/// (index of the known entry it is placed before, name, data)
 	extras: Vec<(usize, Vec<u8>, Vec<u8>)>,
+	/// encoded file when it is not simply m.encode() (e.g. a Gecko list in a version below 3.3)
+	bytes: Option<Vec<u8>>,
 }
 
 fn gen_case(dna: &[u8], cfg: &crate::gen::GenCfg) -> Case {
@@ -54,12 +56,12 @@ fn gen_case(dna: &[u8], cfg: &crate::gen::GenCfg) -> Case {
 		crate::gen::SplitMix(d.u32() as u64).fill(&mut data);
 		extras.push((pos, name, data));
 	}
-	Case { m: crate::gen::gen_model(&mut d, cfg), comp, hash, extras }
+	Case { m: crate::gen::gen_model(&mut d, cfg), comp, hash, extras, bytes: None }
 }
 
 fn check(ctx: &Ctx, c: &Case, label: &str, counting: bool) -> Result<(), Fail> {
 	let m = &c.m;
-	let bytes = m.encode();
+	let bytes = c.bytes.clone().unwrap_or_else(|| m.encode());
 	let want = expected_names(m);
 	if counting {
 		ctx.eval();
@@ -235,7 +237,25 @@ const GATE: [(u8, u8, u8); 14] = [(0, 0, 0), (1, 0, 0), (1, 255, 255), (1, 9, 9)
 
 fn forced(i: usize) -> Case {
 	let (m, comp, hash, _) = super::c02::forced_model_pub(i);
-	Case { m, comp, hash, extras: if i % 2 == 0 { let n = SAFE_NAMES[(i / 2) % SAFE_NAMES.len()].to_vec(); let dl = if n.ends_with(b"/") || n == b"." || n == b".." { 0 } else { i % 700 }; vec![(i % 8, n, vec![0xEE; dl])] } else { vec![] } }
+	let extras = if i % 2 == 0 {
+		let n = SAFE_NAMES[(i / 2) % SAFE_NAMES.len()].to_vec();
+		let dl = if n.ends_with(b"/") || n == b"." || n == b".." { 0 } else { i % 700 };
+		vec![(i % 8, n, vec![0xEE; dl])]
+	} else {
+		vec![]
+	};
+	if i % 9 == 4 {
+		// a Gecko list carried by a file older than 3.3 (the reader accepts the events in any version that
+		// declares them): the blob is "present", so it must be in the archive and come back
+		let ver = [(3, 2, 0), (3, 0, 0), (3, 2, 255), (2, 0, 1)][(i / 9) % 4];
+		let mut m = crate::gen::simple_model(ver, &[(0, false), (1, false)], 2, i as u64, crate::gen::Pattern::Random, 1, true);
+		m.gecko = Some(crate::model::Gecko { bytes: vec![0x3C; 1024], actual: 700 });
+		let mut raw = m.raw();
+		raw.table.push((spec::EV_GECKO, 700));
+		raw.table.push((spec::EV_SPLITTER, 516));
+		return Case { m, comp, hash, extras, bytes: Some(raw.serialize()) };
+	}
+	Case { m, comp, hash, extras, bytes: None }
 }
 
 pub fn case(ctx: &Ctx, kind: &str, params: &Value, counting: bool) -> Result<(), Fail> {
